@@ -152,7 +152,7 @@ func runC39(c *Ctx) {
 	loopOverIn := func(g *ssa.Function, r *ssau.Reach, method string) *ssa.If {
 		for _, i := range ssau.Ifs(g) {
 			b, ok := i.Cond.(*ssa.BinOp)
-			if !ok || b.Op != token.LSS || i.Block().Comment != "rangeindex.loop" || !r.Instr(i) {
+			if !ok || b.Op != token.LSS || blockComment(i) != "rangeindex.loop" || !r.Instr(i) {
 				continue
 			}
 			if isLenOf(func(v ssa.Value) bool { return methodCallNamed(v, method) })(b.Y) {
